@@ -523,18 +523,27 @@ def _dead_else_raises(ctx):
     from .util import walk_no_nested
 
     dead += [n for n in walk_no_nested(fr.node) if isinstance(n, ast.Raise) and n.lineno not in reached]
-    # data_received
+    # data_received and the same-class helpers it is split into: explored concretely over streams that contain every
+    # reserved byte, in both modes - the dispatch on the reserved byte has no other input, so a raise none of them reaches
+    # (the `else: raise` of the exhaustive dispatch) is dead, whatever form the scanner has
     dr = repo.func(RECV)
-    models, rwe = _scan_models(ctx)
-    MAX = const(ctx, ASH, "MAX_BUFFER_SIZE", int)
-    reached = set()
-    for disc in (False, True):
-        px = PX(repo, models=models, inline=inline_ash(stop=("frame_received", "_write_frame", "_unstuff_bytes")), while_bound=1, refine_membership=True,
-                loop_iters=(0, 1, 2))
-        paths = px.explore(dr, lambda: (self_obj(cls, {"_buffer": Sym("B"), "_discarding_until_next_flag": disc, "_rx_seq": Sym("rx")}), {"data": Sym("data")}))
-        for p in paths + px.truncated_paths:
-            reached |= {e.line for e in p.events if e.kind == "raise" and e.func == dr.short}
-    dead += [n for n in walk_no_nested(dr.node) if isinstance(n, ast.Raise) and n.lineno not in reached]
+    reached, funcs = set(), {dr.qual: dr}
+    pxc = PX(repo, inline=lambda g, aw: not g.is_async, max_depth=8, max_paths=8,
+             models=[("binascii.crc_hqx", crc_model), ("self.frame_received", Outcomes(OK(None))), ("self._write_frame", Outcomes(OK(None)))])
+    for name, stream in _streams(ctx).items():
+        for disc in (False, True):
+            for p in pxc.explore(dr, lambda: (self_obj(cls, {"_buffer": bytearray(), "_discarding_until_next_flag": disc, "_rx_seq": 3}), {"data": bytes(stream)})):
+                reached |= {(e.func, e.line) for e in p.events if e.kind == "raise"}
+    for q in pxc.visited:
+        funcs.setdefault(q, None)
+    for q in list(funcs):
+        try:
+            g = funcs[q] or repo.func(q)
+        except Exception:
+            continue
+        if g.cls is None or g.cls.name != "AshProtocol" or g.name in ("frame_received", "_write_frame"):
+            continue
+        dead += [n for n in walk_no_nested(g.node) if isinstance(n, ast.Raise) and (g.short, n.lineno) not in reached]
     return dead
 
 
@@ -870,9 +879,14 @@ def r02_4(ctx):
         ctx.require(p.terminal == "return" and isinstance(buf, (bytes, bytearray)) and len(buf) == 0 and p.store["self"].get("_discarding_until_next_flag") is True,
                     f"discarding-bound({n})", f"{n} garbage bytes while discarding -> buffer {buf!r:.40}, mode {p.store['self'].get('_discarding_until_next_flag')!r}; "
                     "the bytes must be dropped and the mode kept", func=f)
+    # one read that takes every reserved-byte branch (so that the helpers the callback is split into are all visited)
+    every = b"ab\x11cd\x13ef\x1agh\x18ij\x7ekl\x7e"
+    pxv = PX(repo, inline=inline_ash(stop=("frame_received", "_write_frame")), max_paths=50,
+             models=[("self._unstuff_bytes", Outcomes(OK(b"\x00"))), ("parse_frame", Outcomes(OK(Sym("frame"))))])
+    pxv.explore(f, lambda: (self_obj(cls, {"_buffer": bytearray(), "_discarding_until_next_flag": False, "_rx_seq": 0}), {"data": every}))
     from .ash_link import confined_writers
 
-    confined_writers(ctx, "_buffer", px.visited, {"AshProtocol.__init__"}, "R02.4 (the receive callback and the helpers it is split into)")
+    confined_writers(ctx, "_buffer", px.visited | pxv.visited, {"AshProtocol.__init__"}, "R02.4 (the receive callback and the helpers it is split into)")
 
 
 # ---- reference receiver (UG101 section 4), written independently of the code under analysis
